@@ -127,7 +127,13 @@ def rule_phi_insertion(ctx):
         ctx.check(R, "insert_ssa_variables_impl/scope-paired-around-each-child", ca == cm and len(ca) == 1, "open under %s, close under %s" % (ca, cm), site(SSA, fn))
         le = let_env(fn["body"])
         sc = le.get("successors")
-        ctx.check(R, "insert_ssa_variables_impl/successors-of-the-current-block", sc is not None and "current_block.successors().clone()" in render(sc).replace(" ", "") and "basic_blocks.get_mut(current_index)" in render(sc).replace(" ", ""), render(sc)[:160] if sc else "?", site(SSA, fn))
+        import terms as _terms
+
+        # the set is the successors of the current block on every way through its initialiser (never an empty or a
+        # filtered set: a block that writes nothing still passes versions on to the phis of its successors)
+        lv = sorted({_terms.norm(x).replace(" ", "") for x in _terms.leaves(sc, {})}) if sc is not None else []
+        oks = sc is not None and "basic_blocks.get_mut(current_index)" in render(sc).replace(" ", "") and bool(lv) and all(x.endswith(".successors()") for x in lv) and not [m_ for m_ in walk(sc) if m_["k"] == "MethodCall" and m_["method"] in ("filter", "retain", "take", "skip", "difference", "intersection")]
+        ctx.check(R, "insert_ssa_variables_impl/successors-of-the-current-block", bool(oks), "successors is one of %s" % lv, site(SSA, fn))
     top = find_fn(SSA, "insert_ssa_variables")
     if top is not None:
         t = render(top["body"]).replace(" ", "")
@@ -174,6 +180,45 @@ def rule_pipeline(ctx):
     t = render(fn["body"]).replace(" ", "")
     ctx.check(R, "into_ssa/parameters-are-version-0", sgrep.has(fn["body"], "for __n in self.parameters.iter_mut() { *__n = __n.with_version(0); }") or sgrep.has(fn["body"], "self.parameters.iter_mut().for_each(|__n| *__n = __n.with_version(0))"), "", site(CFG, fn))
     ctx.check(R, "into_ssa/declarations-replaced", sgrep.has(fn["body"], "self.declarations = ssa_impl::update_declarations(&mut self.basic_blocks, &self.parameters, __env)", sgrep.lets(fn["body"])), "", site(CFG, fn))
+
+
+def rule_plumbing(ctx):
+    R = "C14.7"
+    ctx.rule(R, "the SSA plumbing of a basic block: a phi statement is put in front of every other statement of its block; the variables a statement writes are all locals it writes, element-wise updates included")
+    BBF = "program_structure/src/control_flow_graph/basic_block.rs"
+    pp = find_fn(BBF, "prepend_statement", "BasicBlock")
+    if pp is None:
+        ctx.missing(R, "BasicBlock::prepend_statement")
+    else:
+        pv = sgrep.params(pp)
+        ok = len(pv) == 1 and (sgrep.has(pp["body"], "self.stmts.insert(0, __s)", sgrep.lets(pp["body"]), {"__s": pv[0]}) or sgrep.has(pp["body"], "self.stmts.push_front(__s)", None, {"__s": pv[0]})) and len(list(method_calls(pp["body"], "insert"))) + len(list(method_calls(pp["body"], "push_front"))) == 1
+        ctx.check(R, "BasicBlock::prepend_statement/at-the-head", ok, render(pp["body"])[:160], site(BBF, pp))
+    tp = None
+    for q, f in fns_in_file(SI):
+        if f["name"] == "prepend_statement" and "SSABasicBlock" in q:
+            tp = f
+    if tp is not None:
+        pv = sgrep.params(tp)
+        ctx.check(R, "SSABasicBlock::prepend_statement/delegates", len(pv) == 1 and (sgrep.has(tp["body"], "self.prepend_statement(__s)", None, {"__s": pv[0]}) or sgrep.has(tp["body"], "BasicBlock::prepend_statement(self, __s)", None, {"__s": pv[0]})), render(tp["body"])[:120], site(SI, tp))
+    vw = None
+    for q, f in fns_in_file(SI):
+        if f["name"] == "variables_written" and "SSAStatement" in q:
+            vw = f
+    if vw is None:
+        ctx.missing(R, "SSAStatement::variables_written")
+    else:
+        from astlib import result_expr
+
+        t = result_expr(vw)
+        chain = []
+        r = strip(t) if t is not None else None
+        while r is not None and r["k"] == "MethodCall":
+            chain.append(r["method"])
+            r = strip(r["recv"])
+        base = render(r).replace(" ", "") if r is not None else "?"
+        narrowing = [m_ for m_ in chain if m_ in ("filter", "filter_map", "take", "skip", "take_while", "skip_while", "step_by")]
+        ok = base in ("VariableMeta::locals_written(self)", "self.locals_written()") and "map" in chain and not narrowing and any(c_["k"] == "MethodCall" and c_["method"] == "name" for c_ in walk(t))
+        ctx.check(R, "SSAStatement::variables_written/all-locals-written", ok, "%s .%s" % (base, ".".join(reversed(chain))), site(SI, vw))
 
 
 def rule_phis_and_locals(ctx):
@@ -409,6 +454,7 @@ def rule_declarations(ctx):
 
 
 def run(ctx):
+    rule_plumbing(ctx)
     rule_phi_insertion(ctx)
     rule_pipeline(ctx)
     rule_phis_and_locals(ctx)
